@@ -76,7 +76,15 @@ class RuleResult:
 
 
 def run_rules(forest, prop, tier='quick', only=None):
+    from . import canon
+    try:
+        forest = canon.apply(forest)
+    except Unknown:
+        raise
+    except Exception as ex:     # the canonicaliser is an optimisation of precision: if it trips, analyse the raw tree
+        forest.canon_info = {'error': f'{type(ex).__name__}: {ex}'}
     fx = Fx(forest, tier)
+    fx.info['canonicalisation (new helpers inlined / new constants folded, relative to the reference inventory)'] = getattr(forest, 'canon_info', None) or 'nothing new'
     results = []
     for r in RULES.get(prop, []):
         if only and r.rid not in only:
